@@ -319,7 +319,14 @@ impl<'a> G<'a> {
                 "the quick brown fox jumps over the lazy dog",
                 "ééééééééééééééééééééééééé",
             ];
-            return self.rng.pick(LONG).to_string();
+            let l = self.rng.pick(LONG).to_string();
+            if self.rng.chance(1, 2) {
+                // a prefix of a long literal: several literals of one grammar then share long prefixes
+                let n_chars = l.chars().count();
+                let keep = 4 + self.rng.below(n_chars - 3);
+                return l.chars().take(keep).collect();
+            }
+            return l;
         }
         if self.cfg.wide_literals && self.rng.chance(1, 2) {
             return self.wide_string(1);
